@@ -232,7 +232,11 @@ func c09DecodeLoops(c *Ctx) {
 					}
 					for _, a := range cc.Args {
 						if isDec(a) {
-							descents = append(descents, call)
+							// only callees that can themselves iterate over the input count: a loop-free helper reads a
+							// bounded number of bytes and comes back (v.readValue(dec))
+							if mayIterate(p, call) {
+								descents = append(descents, call)
+							}
 							break
 						}
 					}
@@ -307,4 +311,33 @@ func leavesLoop(b *ssa.BasicBlock, l *Loop) bool {
 		stack = append(stack, x.Succs...)
 	}
 	return true
+}
+
+// mayIterate: the call can reach (statically, or through an in-repo interface method) a function that contains a loop.
+func mayIterate(p *Program, call ssa.CallInstruction) bool {
+	seen := map[*ssa.Function]bool{}
+	var visit func(f *ssa.Function, depth int) bool
+	visit = func(f *ssa.Function, depth int) bool {
+		if f == nil || seen[f] || !InRepo(f) || f.Blocks == nil || depth > 4 {
+			return false
+		}
+		seen[f] = true
+		if len(Loops(f)) > 0 {
+			return true
+		}
+		for _, c2 := range Calls(f) {
+			for _, g := range calleesOf(p, c2) {
+				if visit(g, depth+1) {
+					return true
+				}
+			}
+		}
+		return false
+	}
+	for _, f := range calleesOf(p, call) {
+		if visit(f, 0) {
+			return true
+		}
+	}
+	return false
 }
